@@ -347,6 +347,8 @@ pub struct SimSink {
     pub fault_fired: bool,
     /// number of write calls made after the fault fired
     pub calls_after_fault: usize,
+    /// shared view of the number of bytes accepted so far
+    pub count: Arc<std::sync::atomic::AtomicUsize>,
     consecutive_intr: u32,
     pending_left: u32,
 }
@@ -361,6 +363,7 @@ impl SimSink {
             flushes: 0,
             fault_fired: false,
             calls_after_fault: 0,
+            count: Arc::new(std::sync::atomic::AtomicUsize::new(0)),
             consecutive_intr: 0,
             pending_left: 0,
         }
@@ -458,6 +461,7 @@ impl Write for SimSink {
     fn write(&mut self, buf: &[u8]) -> io::Result<usize> {
         let n = self.decide(buf.len())?;
         self.data.extend_from_slice(&buf[..n]);
+        self.count.store(self.data.len(), Ordering::SeqCst);
         Ok(n)
     }
     fn flush(&mut self) -> io::Result<()> {
@@ -503,6 +507,7 @@ impl AsyncWrite for SimSink {
         match this.decide(buf.len()) {
             Ok(n) => {
                 this.data.extend_from_slice(&buf[..n]);
+                this.count.store(this.data.len(), Ordering::SeqCst);
                 Poll::Ready(Ok(n))
             }
             Err(e) => Poll::Ready(Err(e)),
